@@ -91,7 +91,7 @@ def variant_label(sc):
     if sc["lives"] and sc["lives"][0].get("drop_fault"):
         return " [munmap fails at scope exit]"
     if sc["lives"] and sc["lives"][0].get("deny"):
-        return " [target page never writable]"
+        return " [target page never writable]" if sc["lives"][0]["deny"] == "page" else " [second page of a straddling target never writable]"
     return ""
 
 
@@ -256,6 +256,22 @@ def lifecycle_check(prop, tier):
                 chain += h
             hists.append(chain)
     if prop == "C07":
+        # the counted line in the company of other installations (forced booleans, plain fakes, another function) in
+        # the same injector, before or after it; chains of 2-3 such lifetimes through the same line
+        hm, gm = gen_behaviours("MC_LifecycleApi_c7m", timeout=3000)
+        run.states += gm["distinct"]
+        run.transitions += gm["generated"]
+        # one source line has one `times` expression: installations of the same line within a lifetime agree on n
+        hm = [h for h in hm if len(set(x["n"] for x in h if x["act"] == "Install" and x["n"] >= 0)) == 1]
+        rndm = vlib.rnd("c7mixed")
+        nmixed = 400 if tier == "quick" else 6000
+        for _ in range(nmixed):
+            chain = []
+            for h in rndm.sample(hm, rndm.choice([2, 2, 3])):
+                chain += h
+            hists.append(chain)
+        run.extra["mixed_company_chains"] = nmixed
+    if prop == "C07":
         # the same fake! line installed again while an earlier installation of it is alive (a loop body)
         hr, gr2 = gen_behaviours("MC_LifecycleApi_c7r", timeout=3000)
         hists += hr
@@ -378,11 +394,22 @@ def lifecycle_check(prop, tier):
             scen.append(sc)
             hists.append(hists[i])
             ndeny += 1
+            if any(st.get("fault") == "mprotect" and st.get("f") == 2 for life in sc["lives"] for st in life["steps"]):
+                # f2 of this pool straddles a page boundary: only its SECOND page refuses
+                sc2 = json.loads(json.dumps(sc))
+                sc2["id"] = len(scen) + 1
+                for life in sc2["lives"]:
+                    life["deny"] = "page2"
+                scen.append(sc2)
+                hists.append(hists[i])
+                ndeny += 1
         run.extra["denied_page_variants"] = ndeny
     groups, order, _ = vlib.run_harness("lifecycle", scen, "lifecycle_" + prop)
     # spec -> impl
     nviol = 0
     for i, h in enumerate(hists, 1):
+        if i in vlib.NOT_RUN:
+            continue
         evs = groups.get(i, [])
         key = history_key(h) + (variant_label(scen[i - 1]) if i > n_plain else "")
         if any(x["act"] == "Install" for x in h):
@@ -796,6 +823,15 @@ def times_check(prop, tier):
     hists, gr = gen_behaviours("MC_LifecycleApi_c6q" if tier == "quick" else "MC_LifecycleApi_c6t", timeout=3000)
     run.states += gr["distinct"]
     run.transitions += gr["generated"]
+    # two counted fakes in one injector (two functions or the same one twice), installations interleaved with calls:
+    # installing one must not disturb the other's count
+    hi, gi = gen_behaviours("MC_LifecycleApi_c6i", timeout=3000)
+    run.states += gi["distinct"]
+    run.transitions += gi["generated"]
+    if tier == "quick":
+        hi = [h for k, h in enumerate(hi) if k % 3 == vlib.seed() % 3]
+    hists += hi
+    run.extra["two_counted_fakes_histories"] = len(hi)
     vlib.build_harness()
     nf = 2 if any(x.get("f") == "f2" for h in hists for x in h) else 1
     scen = [hist_to_scenario(h, i, "rust", nf, diff=False) for i, h in enumerate(hists, 1)]
@@ -1021,6 +1057,20 @@ def a64_cases(tier):
         add("a64-linux", src0, src0 - 4 * (hi << 13) - 4, 0xCAFE0000BEEF)
     for d in (R + 4096, -(R + 4096), 1 << 30, -(1 << 30), (1 << 32) - 4, -(1 << 32), 1 << 27, 1 << 28, (1 << 29) - 4, 1 << 29):
         add("a64-linux", src0, src0 + d, 0xCAFE0000BEEF)
+    msrc0 = 0x0000000180000000
+    # (b') far out of range but congruent to something in range modulo 2^k, for every width the word or byte offset could be
+    # narrowed to on the way to the range test (2^26 words ... 2^47 bytes): must be refused, never wrapped
+    for k in range(28, 48):
+        for m in (1, -1):
+            for r in (0, 4, -4, 0x1000, -0x1000, R - 4, -R):
+                d = m * (1 << k) + r
+                base = src0 if 0 < src0 + d < (1 << 48) else (1 << 47) + 0x1000
+                if 0 < base + d < (1 << 63):
+                    add("a64-linux", base, base + d, 0xCAFE0000BEEF)
+                    # the macOS long form is quantified over pc/target pairs within +/-4 GiB only (the allocator keeps
+                    # +/-2 GiB there; beyond +/-4 GiB maybe_emit_long_jump has no range test -- observed, outside C15)
+                    if k <= 31 and r in (0, 4, -R):
+                        add("a64-macos", msrc0 + 0x40, msrc0 + 0x40 + d, 0xA1B2C3D4E5F6)
     # (c) macOS long form: low 12 bits exhaustively, each half of the 21-bit page delta, pc page offsets, +/-2 GiB edges
     msrc = 0x0000000180000000
     for low in range(0, 4096, 8 if q else 1):
@@ -1775,10 +1825,23 @@ def main():
         return 2
     except ToolError as e:
         print("TOOL-ERROR: %s" % e)
-        return 2
+        return hung_verdict(a.what)
     except Exception:
         traceback.print_exc()
-        return 2
+        return hung_verdict(a.what)
+
+
+def hung_verdict(prop):
+    """the analysis could not be completed; if that is because scenarios HUNG on the real library (their alarm went off),
+    the hang itself is the finding"""
+    if prop in CHECKS and vlib.HUNG_RUNS:
+        path = os.path.join(vlib.REPLAYS, "%s_hung.json" % prop)
+        os.makedirs(vlib.REPLAYS, exist_ok=True)
+        json.dump({"property": prop, "key": "scenarios hung", "runs": vlib.HUNG_RUNS}, open(path, "w"), indent=1)
+        print("VIOLATION property=%s replay=%s" % (prop, path))
+        print("  key: %s scenarios never finished (alarm) in driver runs %s" % (prop, [r[1] for r in vlib.HUNG_RUNS]))
+        return 1
+    return 2
 
 
 if __name__ == "__main__":
